@@ -355,6 +355,9 @@ impl FileSpec {
     // returns an ordered list of all files in the right directory that start with the fixed_name_part
     pub(crate) fn read_dir_related_files(&self) -> Vec<PathBuf> {
         let fixed_name_part = self.fixed_name_part();
+        #[cfg(flexi_logger_verif)]
+        crate::verif_hooks::fs_point(crate::verif_hooks::FsOp::ReadDir, &self.directory)
+            .unwrap(/*like the read_dir below*/);
         let mut log_files = std::fs::read_dir(&self.directory)
             .unwrap(/*ignore errors from reading the directory*/)
             .flatten(/*ignore errors from reading entries in the directory*/)
